@@ -30,7 +30,12 @@ def observe(G, nodes=None, probes=None):
     ns = list(G.nodes()) if nodes is None else list(nodes)
     if probes is None:
         ids = out['ids']
-        probes = list(range(min(ids) - 1, max(ids) + 2)) if ids else [0]
+        if not ids:
+            probes = [0]
+        elif max(ids) - min(ids) <= 400:
+            probes = list(range(min(ids) - 1, max(ids) + 2))
+        else:       # widely spread ids: probe around each of them instead of the whole range
+            probes = sorted({t + k for t in ids for k in (-1, 0, 1)})
     pres = set()
     for u in ns:
         for v in ns:
